@@ -150,6 +150,368 @@ theorem div_lt_of_lt_mul {i W H : Nat} (h : i < W * H) : i / W < H :=
     · subst h0; simp at h
     · exact h0)).2 (by rw [Nat.mul_comm] at h; exact h)
 
+/-! ## pixels -/
+
+theorem putPixel_spec : ∀ (comp : List α) (fb : Array α) (off : Nat),
+    off + comp.length ≤ fb.size → fb.size < 4294967296 →
+    ∃ fb', putPixel fb off comp = some fb' ∧ fb'.size = fb.size ∧
+      ∀ k, fb'[k]? = if off ≤ k ∧ k < off + comp.length then comp[k - off]? else fb[k]? := by
+  intro comp
+  induction comp with
+  | nil =>
+    intro fb off _ _
+    refine ⟨fb, rfl, rfl, fun k => ?_⟩
+    have : ¬ (off ≤ k ∧ k < off + ([] : List α).length) := by simp only [List.length_nil]; omega
+    rw [if_neg this]
+  | cons c cs ih =>
+    intro fb off h hsz
+    simp only [List.length_cons] at h
+    have ho : off < fb.size := by omega
+    have hnext : add32 off 1 = off + 1 := by unfold add32; omega
+    obtain ⟨fb', h1, h2, h3⟩ := ih (fb.set off c ho) (off + 1) (by simp; omega) (by simpa using hsz)
+    refine ⟨fb', ?_, by simpa using h2, fun k => ?_⟩
+    · simp only [putPixel, put_eq ho, hnext, h1]
+    · rw [h3]
+      simp only [List.length_cons]
+      by_cases hA : off + 1 ≤ k ∧ k < off + 1 + cs.length
+      · have hB : off ≤ k ∧ k < off + (cs.length + 1) := by omega
+        rw [if_pos hA, if_pos hB]
+        have : k - off = (k - (off + 1)) + 1 := by omega
+        rw [this, List.getElem?_cons_succ]
+      · rw [if_neg hA, Array.getElem?_set]
+        by_cases hk : off = k
+        · have hB : off ≤ k ∧ k < off + (cs.length + 1) := by omega
+          rw [if_pos hk, if_pos hB]
+          have : k - off = 0 := by omega
+          rw [this]; rfl
+        · have hB : ¬ (off ≤ k ∧ k < off + (cs.length + 1)) := by omega
+          rw [if_neg hk, if_neg hB]
+
+/-- proof-side generalisation of `pixRow`: pixel `x` of the row gets the bytes `colorAt x` -/
+def pixRowF (colorAt : Nat → List α) (step : Nat) : (n : Nat) → (fb : Array α) → (off x : Nat) → Option (Array α)
+  | 0, fb, _, _ => some fb
+  | n+1, fb, off, x =>
+    match putPixel fb off (colorAt x) with
+    | none => none
+    | some fb' => pixRowF colorAt step n fb' (add32 off step) (x+1)
+
+theorem pixRow_eq (comp : List α) (step : Nat) : ∀ (n : Nat) (fb : Array α) (off x : Nat),
+    pixRow comp step fb off n = pixRowF (fun _ => comp) step n fb off x := by
+  intro n
+  induction n with
+  | zero => intros; rfl
+  | succ n ih =>
+    intro fb off x
+    simp only [pixRow, pixRowF]
+    cases putPixel fb off comp with
+    | none => rfl
+    | some fb' => exact ih fb' _ _
+
+theorem pixRowF_spec (colorAt : Nat → List α) (step len : Nat) (hlen : ∀ x, (colorAt x).length = len)
+    (hstep : len ≤ step) (hpos : 0 < step) :
+    ∀ (n : Nat) (fb : Array α) (off x : Nat), off + n * step ≤ fb.size → fb.size + step < 4294967296 →
+    ∃ fb', pixRowF colorAt step n fb off x = some fb' ∧ fb'.size = fb.size ∧
+      ∀ k, fb'[k]? = if off ≤ k ∧ k < off + n * step ∧ (k - off) % step < len
+                     then (colorAt (x + (k - off) / step))[(k - off) % step]? else fb[k]? := by
+  intro n
+  induction n with
+  | zero =>
+    intro fb off x _ _
+    refine ⟨fb, rfl, rfl, fun k => ?_⟩
+    have : ¬ (off ≤ k ∧ k < off + 0 * step ∧ (k - off) % step < len) := by omega
+    rw [if_neg this]
+  | succ n ih =>
+    intro fb off x h hsz
+    have e1 : (n + 1) * step = n * step + step := Nat.succ_mul n step
+    obtain ⟨fb1, g1, g2, g3⟩ := putPixel_spec (colorAt x) fb off (by rw [hlen]; omega) (by omega)
+    have hnext : add32 off step = off + step := by unfold add32; omega
+    obtain ⟨fb', k1, k2, k3⟩ := ih fb1 (off + step) (x + 1) (by omega) (by omega)
+    refine ⟨fb', ?_, by omega, fun k => ?_⟩
+    · simp only [pixRowF, g1, hnext, k1]
+    · rw [k3, g3, hlen]
+      by_cases hk : off + step ≤ k
+      · -- a later pixel
+        have hsub : k - off = (k - (off + step)) + step := by omega
+        have hm : (k - off) % step = (k - (off + step)) % step := by rw [hsub, Nat.add_mod_right]
+        have hd : (k - off) / step = (k - (off + step)) / step + 1 := by rw [hsub, Nat.add_div_right _ hpos]
+        have hnot : ¬ (off ≤ k ∧ k < off + len) := by omega
+        by_cases hA : off + step ≤ k ∧ k < off + step + n * step ∧ (k - (off + step)) % step < len
+        · have hB : off ≤ k ∧ k < off + (n + 1) * step ∧ (k - off) % step < len := by omega
+          rw [if_pos hA, if_pos hB, hm, hd]
+          have : x + 1 + (k - (off + step)) / step = x + ((k - (off + step)) / step + 1) := by omega
+          rw [this]
+        · have hB : ¬ (off ≤ k ∧ k < off + (n + 1) * step ∧ (k - off) % step < len) := by omega
+          rw [if_neg hA, if_neg hB, if_neg hnot]
+      · have hA : ¬ (off + step ≤ k ∧ k < off + step + n * step ∧ (k - (off + step)) % step < len) := by omega
+        rw [if_neg hA]
+        by_cases hC : off ≤ k ∧ k < off + len
+        · have hm : (k - off) % step = k - off := Nat.mod_eq_of_lt (by omega)
+          have hd : (k - off) / step = 0 := Nat.div_eq_of_lt (by omega)
+          have hB : off ≤ k ∧ k < off + (n + 1) * step ∧ (k - off) % step < len := by omega
+          rw [if_pos hC, if_pos hB, hm, hd, Nat.add_zero]
+        · have hB : ¬ (off ≤ k ∧ k < off + (n + 1) * step ∧ (k - off) % step < len) := by
+            intro ⟨b1, b2, b3⟩
+            have hm : (k - off) % step = k - off := Nat.mod_eq_of_lt (by omega)
+            omega
+          rw [if_neg hC, if_neg hB]
+
+/-- proof-side generalisation of the row loops: pixel `(px, py)` gets `colorAt px py` -/
+def rowsF (colorAt : Nat → Nat → List α) (step pitch n : Nat) : (h : Nat) → (fb : Array α) → (rowOff py : Nat) → Option (Array α)
+  | 0, fb, _, _ => some fb
+  | h+1, fb, rowOff, py =>
+    match pixRowF (fun x => colorAt x py) step n fb rowOff 0 with
+    | none => none
+    | some fb' => rowsF colorAt step pitch n h fb' (add32 rowOff pitch) (py+1)
+
+theorem rowsF_spec (colorAt : Nat → Nat → List α) (step len pitch n c0 : Nat)
+    (hlen : ∀ x y, (colorAt x y).length = len) (hstep : len ≤ step) (hpos : 0 < step)
+    (hrow : c0 + n * step ≤ pitch) :
+    ∀ (h : Nat) (fb : Array α) (R py : Nat), (R + h) * pitch ≤ fb.size → fb.size + pitch + step < 4294967296 →
+    ∃ fb', rowsF colorAt step pitch n h fb (R * pitch + c0) py = some fb' ∧ fb'.size = fb.size ∧
+      ∀ i, fb'[i]? =
+        if (R ≤ i / pitch ∧ i / pitch < R + h) ∧ c0 ≤ i % pitch ∧ i % pitch < c0 + n * step ∧ (i % pitch - c0) % step < len
+        then (colorAt ((i % pitch - c0) / step) (py + (i / pitch - R)))[(i % pitch - c0) % step]? else fb[i]? := by
+  intro h
+  induction h with
+  | zero =>
+    intro fb R py _ _
+    refine ⟨fb, rfl, rfl, fun i => ?_⟩
+    have : ¬ ((R ≤ i / pitch ∧ i / pitch < R + 0) ∧ c0 ≤ i % pitch ∧ i % pitch < c0 + n * step ∧ (i % pitch - c0) % step < len) := by omega
+    rw [if_neg this]
+  | succ h ih =>
+    intro fb R py hsz hB
+    have e1 : (R + (h + 1)) * pitch = R * pitch + h * pitch + pitch := by rw [Nat.add_mul, Nat.succ_mul]; omega
+    have e2 : (R + 1 + h) * pitch = R * pitch + h * pitch + pitch := by rw [Nat.add_mul, Nat.add_mul]; omega
+    have e3 : (R + 1) * pitch = R * pitch + pitch := by rw [Nat.add_mul]; omega
+    obtain ⟨fb1, g1, g2, g3⟩ := pixRowF_spec (fun x => colorAt x py) step len (fun x => hlen x py) hstep hpos n fb
+      (R * pitch + c0) 0 (by omega) (by omega)
+    have hnext : add32 (R * pitch + c0) pitch = (R + 1) * pitch + c0 := by unfold add32; omega
+    obtain ⟨fb', k1, k2, k3⟩ := ih fb1 (R + 1) (py + 1) (by omega) (by omega)
+    refine ⟨fb', ?_, by omega, fun i => ?_⟩
+    · simp only [rowsF, g1, hnext, k1]
+    · rw [k3, g3]
+      have hr := @row_range pitch R c0 (n * step) i hrow
+      by_cases hA : (R + 1 ≤ i / pitch ∧ i / pitch < R + 1 + h) ∧ c0 ≤ i % pitch ∧ i % pitch < c0 + n * step ∧ (i % pitch - c0) % step < len
+      · have hB' : (R ≤ i / pitch ∧ i / pitch < R + (h + 1)) ∧ c0 ≤ i % pitch ∧ i % pitch < c0 + n * step ∧ (i % pitch - c0) % step < len := by omega
+        rw [if_pos hA, if_pos hB']
+        have : py + 1 + (i / pitch - (R + 1)) = py + (i / pitch - R) := by omega
+        rw [this]
+      · rw [if_neg hA]
+        by_cases hC : R * pitch + c0 ≤ i ∧ i < R * pitch + c0 + n * step
+        · have hq := hr.1 hC
+          have hdm := Nat.div_add_mod i pitch
+          rw [hq.1, Nat.mul_comm] at hdm
+          have hsub : i - (R * pitch + c0) = i % pitch - c0 := by omega
+          by_cases hD : (i % pitch - c0) % step < len
+          · have hB' : (R ≤ i / pitch ∧ i / pitch < R + (h + 1)) ∧ c0 ≤ i % pitch ∧ i % pitch < c0 + n * step ∧ (i % pitch - c0) % step < len := by omega
+            have hC' : R * pitch + c0 ≤ i ∧ i < R * pitch + c0 + n * step ∧ (i - (R * pitch + c0)) % step < len := by
+              rw [hsub]; omega
+            rw [if_pos hC', if_pos hB', hsub]
+            have : py + (i / pitch - R) = py := by omega
+            rw [this, Nat.zero_add]
+          · have hB' : ¬ ((R ≤ i / pitch ∧ i / pitch < R + (h + 1)) ∧ c0 ≤ i % pitch ∧ i % pitch < c0 + n * step ∧ (i % pitch - c0) % step < len) := by omega
+            have hC' : ¬ (R * pitch + c0 ≤ i ∧ i < R * pitch + c0 + n * step ∧ (i - (R * pitch + c0)) % step < len) := by
+              rw [hsub]; omega
+            rw [if_neg hC', if_neg hB']
+        · have hB' : ¬ ((R ≤ i / pitch ∧ i / pitch < R + (h + 1)) ∧ c0 ≤ i % pitch ∧ i % pitch < c0 + n * step ∧ (i % pitch - c0) % step < len) := by
+            intro hh
+            apply hC
+            apply hr.2
+            omega
+          have hC' : ¬ (R * pitch + c0 ≤ i ∧ i < R * pitch + c0 + n * step ∧ (i - (R * pitch + c0)) % step < len) := by
+            intro hh; exact hC ⟨hh.1, hh.2.1⟩
+          rw [if_neg hC', if_neg hB']
+
+theorem col_range {bpp px0 n b : Nat} (hb : 0 < bpp) :
+    ((px0 * bpp ≤ b ∧ b < px0 * bpp + n * bpp) ↔ (px0 ≤ b / bpp ∧ b / bpp < px0 + n)) ∧
+    (px0 * bpp ≤ b → (b - px0 * bpp) % bpp = b % bpp ∧ (b - px0 * bpp) / bpp = b / bpp - px0) := by
+  constructor
+  · rw [← Nat.add_mul, Nat.le_div_iff_mul_le hb, Nat.div_lt_iff_lt_mul hb]
+  · intro h
+    have e : b = (b - px0 * bpp) + px0 * bpp := by omega
+    constructor
+    · conv => rhs; rw [e, Nat.add_mul_mod_self_right]
+    · have : b / bpp = (b - px0 * bpp) / bpp + px0 := by
+        conv => lhs; rw [e, Nat.add_mul_div_right _ _ hb]
+      clear e
+      generalize (b - px0 * bpp) / bpp = q at this ⊢
+      generalize b / bpp = q' at this ⊢
+      omega
+
+open Firefly.VesaFb in
+/-- the loop-shaped description produced by `rowsF_spec` is the `paint` specification -/
+theorem paint_bridge (c : Cons) (fb : Array UInt8) (len px0 n R h : Nat) (color : Nat → Nat → List UInt8)
+    (hlen : ∀ x y, (color x y).length = len) (hbpp : 0 < c.bytesPerPixel) (i : Nat) :
+    (if (R ≤ i / c.pitch ∧ i / c.pitch < R + h) ∧ px0 * c.bytesPerPixel ≤ i % c.pitch ∧
+          i % c.pitch < px0 * c.bytesPerPixel + n * c.bytesPerPixel ∧
+          (i % c.pitch - px0 * c.bytesPerPixel) % c.bytesPerPixel < len
+      then (color ((i % c.pitch - px0 * c.bytesPerPixel) / c.bytesPerPixel) (0 + (i / c.pitch - R)))[(i % c.pitch - px0 * c.bytesPerPixel) % c.bytesPerPixel]?
+      else fb[i]?).getD 0 =
+    Firefly.Spec.Console.paint c (fun j => fb.getD j 0) px0 (px0 + n) R (R + h) color i := by
+  have hc := @col_range c.bytesPerPixel px0 n (i % c.pitch) hbpp
+  simp only [Firefly.Spec.Console.paint, Nat.zero_add]
+  by_cases hrect : R ≤ i / c.pitch ∧ i / c.pitch < R + h ∧ px0 ≤ i % c.pitch / c.bytesPerPixel ∧ i % c.pitch / c.bytesPerPixel < px0 + n
+  · have h1 := hc.1.2 ⟨hrect.2.2.1, hrect.2.2.2⟩
+    have h2 := hc.2 h1.1
+    rw [if_pos hrect, h2.1, h2.2]
+    by_cases hk : i % c.pitch % c.bytesPerPixel < len
+    · rw [if_pos ⟨⟨hrect.1, hrect.2.1⟩, h1.1, h1.2, hk⟩]
+      have hk' : i % c.pitch % c.bytesPerPixel < (color (i % c.pitch / c.bytesPerPixel - px0) (i / c.pitch - R)).length := by
+        rw [hlen]; exact hk
+      rw [List.getElem?_eq_getElem hk']
+      rfl
+    · rw [if_neg (by intro hh; exact hk hh.2.2.2)]
+      have hk' : (color (i % c.pitch / c.bytesPerPixel - px0) (i / c.pitch - R)).length ≤ i % c.pitch % c.bytesPerPixel := by
+        rw [hlen]; omega
+      rw [List.getElem?_eq_none hk', Array.getD_eq_getD_getElem?]
+  · rw [if_neg hrect, if_neg (by
+      intro hh
+      apply hrect
+      have := hc.1.1 ⟨hh.2.1, hh.2.2.1⟩
+      exact ⟨hh.1.1, hh.1.2, this.1, this.2⟩), Array.getD_eq_getD_getElem?]
+
+open Firefly.VesaFb in
+theorem vesa_fillRows_eq (comp : List UInt8) (step pitch n c0 : Nat) (hpos : 0 < step) (hlen : comp.length ≤ step)
+    (hrow : c0 + n * step ≤ pitch) :
+    ∀ (h : Nat) (fb : Array UInt8) (R py : Nat), (R + h) * pitch ≤ fb.size → fb.size + pitch + step < 4294967296 →
+      fillRows comp step pitch (n * step) fb (R * pitch + c0) h
+        = rowsF (fun _ _ => comp) step pitch n h fb (R * pitch + c0) py := by
+  intro h
+  induction h with
+  | zero => intros; rfl
+  | succ h ih =>
+    intro fb R py hsz hB
+    have e1 : (R + (h + 1)) * pitch = R * pitch + h * pitch + pitch := by rw [Nat.add_mul, Nat.succ_mul]; omega
+    have e2 : (R + 1 + h) * pitch = R * pitch + h * pitch + pitch := by rw [Nat.add_mul, Nat.add_mul]; omega
+    have hcnt : (add32 (R * pitch + c0) (n * step) - (R * pitch + c0) + (step - 1)) / step = n := by
+      have : add32 (R * pitch + c0) (n * step) - (R * pitch + c0) = n * step := by unfold add32; omega
+      rw [this]
+      have : n * step + (step - 1) = (step - 1) + n * step := by omega
+      rw [this, Nat.add_mul_div_right _ _ hpos, Nat.div_eq_of_lt (by omega)]; omega
+    have hnext : add32 (R * pitch + c0) pitch = (R + 1) * pitch + c0 := by
+      unfold add32; rw [Nat.add_mul]; omega
+    simp only [fillRows, rowsF, hcnt, pixRow_eq comp step n fb _ 0]
+    cases hp : pixRowF (fun _ => comp) step n fb (R * pitch + c0) 0 with
+    | none => rfl
+    | some fb' =>
+      have hsz' : fb'.size = fb.size := by
+        obtain ⟨fb1, g1, g2, _⟩ := pixRowF_spec (fun _ => comp) step comp.length (fun _ => rfl) hlen
+          hpos n fb (R * pitch + c0) 0 (by omega) (by omega)
+        rw [hp] at g1; cases g1; exact g2
+      simp only [hnext]
+      exact ih fb' (R + 1) (py + 1) (by omega) (by omega)
+
+/-! ## row-wise scrolling -/
+section Scroll
+open Firefly.VesaFb
+
+theorem scrollRowsUp_spec (offset rowBytes pitch : Nat) (hrb : rowBytes ≤ pitch) :
+    ∀ (n : Nat) (fb : Array UInt8) (R : Nat), (R + n) * pitch + offset ≤ fb.size → fb.size + pitch < 4294967296 →
+    ∃ fb', scrollRowsUp offset rowBytes pitch fb (R * pitch) n = some fb' ∧ fb'.size = fb.size ∧
+      ∀ i, fb'[i]? = if (R ≤ i / pitch ∧ i / pitch < R + n) ∧ i % pitch < rowBytes then fb[i + offset]? else fb[i]? := by
+  intro n
+  induction n with
+  | zero =>
+    intro fb R _ _
+    refine ⟨fb, rfl, rfl, fun i => ?_⟩
+    have : ¬ ((R ≤ i / pitch ∧ i / pitch < R + 0) ∧ i % pitch < rowBytes) := by omega
+    rw [if_neg this]
+  | succ n ih =>
+    intro fb R hsz hB
+    have e1 : (R + (n + 1)) * pitch = R * pitch + n * pitch + pitch := by rw [Nat.add_mul, Nat.succ_mul]; omega
+    have e2 : (R + 1 + n) * pitch = R * pitch + n * pitch + pitch := by rw [Nat.add_mul, Nat.add_mul]; omega
+    have e3 : (R + 1) * pitch = R * pitch + pitch := by rw [Nat.add_mul]; omega
+    have hcnt : add32 (R * pitch) rowBytes - R * pitch = rowBytes := by unfold add32; omega
+    obtain ⟨fb1, g1, g2, g3⟩ := copyAsc_spec (fun i => add32 i offset) rowBytes fb (R * pitch) (by omega)
+      (by intro k hk1 hk2; simp only [add32]; omega)
+    have hnext : add32 (R * pitch) pitch = (R + 1) * pitch := by unfold add32; omega
+    obtain ⟨fb', k1, k2, k3⟩ := ih fb1 (R + 1) (by omega) (by omega)
+    refine ⟨fb', ?_, by omega, fun i => ?_⟩
+    · simp only [scrollRowsUp, hcnt, g1, hnext, k1]
+    · rw [k3]
+      have hr := @row_range pitch R 0 rowBytes i (by omega)
+      have hr' := @row_range pitch R 0 rowBytes (i + offset) (by omega)
+      by_cases hA : (R + 1 ≤ i / pitch ∧ i / pitch < R + 1 + n) ∧ i % pitch < rowBytes
+      · have hB' : (R ≤ i / pitch ∧ i / pitch < R + (n + 1)) ∧ i % pitch < rowBytes := by omega
+        rw [if_pos hA, if_pos hB', g3]
+        -- the source lies below row R: not touched by the first row copy
+        have hge : (R + 1) * pitch ≤ i := by
+          have hdm := Nat.div_add_mod i pitch
+          have h2 : (R + 1) * pitch ≤ (i / pitch) * pitch := Nat.mul_le_mul_right pitch hA.1.1
+          rw [Nat.mul_comm pitch (i / pitch)] at hdm
+          omega
+        rw [if_neg (by omega)]
+      · rw [if_neg hA, g3]
+        by_cases hC : R * pitch ≤ i ∧ i < R * pitch + rowBytes
+        · have hq := hr.1 (by omega)
+          have hB' : (R ≤ i / pitch ∧ i / pitch < R + (n + 1)) ∧ i % pitch < rowBytes := by omega
+          rw [if_pos hC, if_pos hB']
+          have : add32 i offset = i + offset := by unfold add32; omega
+          rw [this]
+        · have hB' : ¬ ((R ≤ i / pitch ∧ i / pitch < R + (n + 1)) ∧ i % pitch < rowBytes) := by
+            intro hh
+            apply hC
+            have := hr.2 (by omega)
+            omega
+          rw [if_neg hC, if_neg hB']
+
+theorem scrollRowsDown_spec (offset rowBytes pitch : Nat) (hrb : rowBytes ≤ pitch) (hoff : pitch ≤ offset) (hp : 0 < pitch) :
+    ∀ (n : Nat) (fb : Array UInt8) (R : Nat), (R + n) * pitch ≤ fb.size → offset ≤ R * pitch → fb.size + pitch < 4294967296 →
+    ∃ fb', scrollRowsDown offset rowBytes pitch fb ((R + n) * pitch) n = some fb' ∧ fb'.size = fb.size ∧
+      ∀ i, fb'[i]? = if (R ≤ i / pitch ∧ i / pitch < R + n) ∧ i % pitch < rowBytes then fb[i - offset]? else fb[i]? := by
+  intro n
+  induction n with
+  | zero =>
+    intro fb R _ _ _
+    refine ⟨fb, rfl, rfl, fun i => ?_⟩
+    have : ¬ ((R ≤ i / pitch ∧ i / pitch < R + 0) ∧ i % pitch < rowBytes) := by omega
+    rw [if_neg this]
+  | succ n ih =>
+    intro fb R hsz hR hB
+    have e1 : (R + (n + 1)) * pitch = (R + n) * pitch + pitch := by rw [← Nat.add_assoc, Nat.succ_mul]
+    have e2 : (R + n) * pitch = R * pitch + n * pitch := Nat.add_mul _ _ _
+    have hs : sub32 ((R + (n + 1)) * pitch) pitch = (R + n) * pitch := by unfold sub32; omega
+    have hcnt : add32 ((R + n) * pitch) rowBytes - (R + n) * pitch = rowBytes := by unfold add32; omega
+    obtain ⟨fb1, g1, g2, g3⟩ := copyAsc_spec (fun i => sub32 i offset) rowBytes fb ((R + n) * pitch) (by omega)
+      (by intro k hk1 hk2; simp only [sub32]; omega)
+    obtain ⟨fb', k1, k2, k3⟩ := ih fb1 R (by omega) hR (by omega)
+    refine ⟨fb', ?_, by omega, fun i => ?_⟩
+    · simp only [scrollRowsDown, hs, hcnt, g1, k1]
+    · rw [k3]
+      have hr := @row_range pitch (R + n) 0 rowBytes i (by omega)
+      by_cases hA : (R ≤ i / pitch ∧ i / pitch < R + n) ∧ i % pitch < rowBytes
+      · have hB' : (R ≤ i / pitch ∧ i / pitch < R + (n + 1)) ∧ i % pitch < rowBytes := by omega
+        rw [if_pos hA, if_pos hB', g3]
+        have hlt : i < (R + n) * pitch := by
+          have hdm := Nat.div_add_mod i pitch
+          have hm := Nat.mod_lt i hp
+          have h2 : (i / pitch + 1) * pitch ≤ (R + n) * pitch := Nat.mul_le_mul_right pitch (show i / pitch + 1 ≤ R + n by omega)
+          rw [Nat.add_mul, Nat.one_mul] at h2
+          rw [Nat.mul_comm pitch (i / pitch)] at hdm
+          omega
+        rw [if_neg (by omega)]
+      · rw [if_neg hA, g3]
+        by_cases hC : (R + n) * pitch ≤ i ∧ i < (R + n) * pitch + rowBytes
+        · have hq := hr.1 (by omega)
+          have hB' : (R ≤ i / pitch ∧ i / pitch < R + (n + 1)) ∧ i % pitch < rowBytes := by omega
+          rw [if_pos hC, if_pos hB']
+          have : sub32 i offset = i - offset := by unfold sub32; omega
+          rw [this]
+        · have hB' : ¬ ((R ≤ i / pitch ∧ i / pitch < R + (n + 1)) ∧ i % pitch < rowBytes) := by
+            intro hh
+            apply hC
+            have := hr.2 (by omega)
+            omega
+          rw [if_neg hC, if_neg hB']
+
+theorem rows_count {A B pitch : Nat} (hp : 0 < pitch) (h : B ≤ A) :
+    (A * pitch - B * pitch + (pitch - 1)) / pitch = A - B := by
+  rw [← Nat.sub_mul]
+  have : (A - B) * pitch + (pitch - 1) = (pitch - 1) + (A - B) * pitch := by omega
+  rw [this, Nat.add_mul_div_right _ _ hp, Nat.div_eq_of_lt (by omega)]; omega
+
+end Scroll
+
 /-! ## text console -/
 section Text
 open Firefly.VgaText
